@@ -3,7 +3,7 @@
 import json, sys
 TECH = "bounded symbolic execution of the real code (own go/ssa -> SMT-LIB2 executor 'symgo'; z3 4.8.12 / cvc5 decide every branch and obligation; counterexamples replayed natively)"
 claimed = {
- "C01": ("model_checking", "5-6/C01", "Search on core-fragment templates equals the specification evaluator for every document (depth<=2/3, arrays<=2/3) and every 64-bit index; expression shapes are enumerated templates"),
+ "C01": ("model_checking", "5-6/C01", "Search on core-fragment templates equals the specification evaluator for every document (quick: depth<=2, arrays<=2; thorough: depth<=4, arrays<=4) and every 64-bit index; expression shapes are enumerated templates"),
  "C02": ("model_checking", "6/C02", "Search on projection templates equals the specification evaluator (null dropping, order, flatten depth, filter truthiness, projection scope; object wildcards as multisets over every member order)"),
  "C03": ("model_checking", "6/C03", "AST of every accepted symbolic token sequence (n<=3/4, sub-alphabets to 5-9) equals a reference parser written from the precedence table; operator mixes evaluate like their specified grouping"),
  "C04": ("model_checking", "6/C04", "Parser.Parse on symbolic token sequences accepts iff the CYK circuit of the grammar accepts, accepted ASTs are well formed; Compile on symbolic bytes"),
